@@ -83,12 +83,15 @@ pub struct W3 {
     pub clock_off_s: i64,
     pub pid: Option<u64>,
     pub env: Vec<(String, String)>,
+    /// extra compiler flags that change neither the expansion nor the `message` of a diagnostic
+    /// (how diagnostics are *rendered*, optimisation, debug info, metadata, an unused `--cfg`)
+    pub args: Vec<String>,
 }
 
 impl W3 {
     pub fn from_entropy(entropy: u64) -> W3 {
         if entropy == 0 {
-            return W3 { entropy, clock_off_s: 0, pid: None, env: vec![] };
+            return W3 { entropy, clock_off_s: 0, pid: None, env: vec![], args: vec![] };
         }
         let mut r = Rng::new(mix64(entropy ^ 0x3E3E));
         let clock_off_s = match r.below(4) {
@@ -116,7 +119,24 @@ impl W3 {
                 env.push((k.to_string(), r.pick(vs).to_string()));
             }
         }
-        W3 { entropy, clock_off_s, pid, env }
+        let mut args = vec![];
+        match r.below(4) {
+            0 => args.push("--json=diagnostic-short".to_string()),
+            1 => args.push("--json=diagnostic-rendered-ansi".to_string()),
+            _ => {},
+        }
+        for a in [
+            "-Copt-level=3",
+            "-Cdebuginfo=2",
+            "-Cmetadata=0123abcd",
+            "--cfg=verif_world_flag",
+            "-Ccodegen-units=1",
+        ] {
+            if r.chance(1, 3) {
+                args.push(a.to_string());
+            }
+        }
+        W3 { entropy, clock_off_s, pid, env, args }
     }
 }
 
@@ -148,6 +168,9 @@ pub fn run_rustc_mode(p: &Paths, tag: &str, krate: &Crate, entropy: u64, hygiene
         .arg("--edition").arg("2021")
         .arg(if hygiene { "-Zunpretty=expanded,hygiene" } else { "-Zunpretty=expanded" })
         .arg("--error-format=json")
+        // (not in hygiene sessions: a `--cfg` or codegen option interns symbols of its own and
+        // shifts the compiler's symbol numbering, which the byte-for-byte comparison would see)
+        .args(if hygiene { &[][..] } else { &w.args[..] })
         .arg("--crate-name").arg("e3crate")
         .arg("--extern").arg(format!("educe={}", p.so.display()))
         .arg(&src_path)
